@@ -141,12 +141,27 @@ def expect_map(K, V, pairs, pol):
 
 # -- parts ----------------------------------------------------------------------------------------------
 
+def _wrapped(C, wrap):
+    """the container type as it is usually declared: alone, Optional[...], or next to another member of a union (the policies
+    must act on the elements in the same way: the union only chooses the member)"""
+    import typing
+    from utype.parser.rule import Rule
+    if not wrap:
+        return C
+    if wrap == "opt":
+        return Rule.parse_annotation(typing.Optional[C])
+    if wrap == "union_none_first":
+        return Rule.parse_annotation(typing.Union[None, C])
+    # (a second member that could take the input itself - Union[C, bytes] - would make the choice of the member part of the outcome: C09's subject)
+    raise HarnessError("bad wrap")
+
+
 def run_seq(case):
     from utype.parser.rule import Rule
     kind, tsp, elems, pol, src = case["kind"], case["elem"], case["elems"], case.get("policy") or {}, case.get("src", "list")
     tspec.validate(tsp)
     T = tspec.build(tsp)
-    C = tspec.build({"k": kind, "a": tsp, "m": case.get("m", "annotate")})
+    C = _wrapped(tspec.build({"k": kind, "a": tsp, "m": case.get("m", "annotate")}), case.get("wrap"))
     if kind in ("set", "frozenset"):
         # the source is turned into a set before its elements are parsed: equal elements (True / 1) collapse to the first one
         seen, uniq = set(), []
@@ -162,7 +177,7 @@ def run_seq(case):
     import utype
     x = codec.decode({"t": src, "v": elems})
     got = oracle.outcome(utype.type_transform, x, C, _opts(pol))
-    return exp, got, off, conv, f"{kind}/{_policy(pol, 'invalid_items')}"
+    return exp, got, off, conv, f"{kind}/{_policy(pol, 'invalid_items')}{'/in-a-union' if case.get('wrap') else ''}"
 
 
 def run_map(case):
@@ -170,7 +185,7 @@ def run_map(case):
     ksp, vsp, pairs, pol = case["key"], case["val"], case["pairs"], case.get("policy") or {}
     tspec.validate(ksp), tspec.validate(vsp)
     K, V = tspec.build(ksp), tspec.build(vsp)
-    C = tspec.build({"k": "dict", "key": ksp, "val": vsp, "m": case.get("m", "annotate")})
+    C = _wrapped(tspec.build({"k": "dict", "key": ksp, "val": vsp, "m": case.get("m", "annotate")}), case.get("wrap"))
     # duplicate raw keys cannot exist in a dict input: keep the last
     seen = {}
     for k, v in pairs:
@@ -182,7 +197,7 @@ def run_map(case):
     exp, off, conv = expect_map(K, V, pairs, pol)
     x = {codec.decode(k): codec.decode(v) for k, v in pairs}
     got = oracle.outcome(utype.type_transform, x, C, _opts(pol))
-    return exp, got, off, conv, f"dict/keys:{_policy(pol, 'invalid_keys')}/values:{_policy(pol, 'invalid_values')}"
+    return exp, got, off, conv, f"dict/keys:{_policy(pol, 'invalid_keys')}/values:{_policy(pol, 'invalid_values')}{'/in-a-union' if case.get('wrap') else ''}"
 
 
 FIELD_T = {"a": {"k": "leaf", "o": "int"}, "b": {"k": "con", "o": "int", "c": {"gt": 0}}, "c": {"k": "con", "o": "str", "c": {"max_length": 2}},
@@ -399,7 +414,7 @@ def _one_shot(e):
 def case_strategy():
     et = st.sampled_from(ELEM_TYPES)
     seq = st.fixed_dictionaries({
-        "part": st.just("seq"), "kind": st.sampled_from(["list", "list", "set", "frozenset", "tuplev"]),
+        "part": st.just("seq"), "wrap": st.sampled_from([None, None, "opt", "union_none_first"]), "kind": st.sampled_from(["list", "list", "set", "frozenset", "tuplev"]),
         "elem": st.one_of(et, et, et, st.sampled_from(NESTED)), "policy": POLICY, "m": st.sampled_from(["annotate", "typing"]),
         "src": st.sampled_from(["list", "list", "tuple"]),
     }).flatmap(lambda c: st.fixed_dictionaries({k: st.just(v) for k, v in c.items()} | {
@@ -407,7 +422,7 @@ def case_strategy():
             lambda e: not _one_shot(e) and (c["kind"] in ("list", "tuplev") or gen._hashable_spec(e))), min_size=2, max_size=6)}))
     seq = seq.filter(lambda c: c["kind"] in ("list", "tuplev") or c["elem"]["k"] not in ("list", "dict"))
     mp = st.fixed_dictionaries({
-        "part": st.just("map"), "key": st.sampled_from(KEY_TYPES), "val": st.one_of(et, et, st.sampled_from(NESTED)), "policy": POLICY,
+        "part": st.just("map"), "wrap": st.sampled_from([None, None, "opt", "union_none_first"]), "key": st.sampled_from(KEY_TYPES), "val": st.one_of(et, et, st.sampled_from(NESTED)), "policy": POLICY,
         "m": st.sampled_from(["annotate", "typing"]),
     }).flatmap(lambda c: st.fixed_dictionaries({k: st.just(v) for k, v in c.items()} | {
         "pairs": st.lists(st.tuples(st.one_of(gen.conforming(c["key"]), gen.exact_values(c["key"]), gen.exact_values(c["key"]), HELEMS).filter(gen._hashable_spec),
